@@ -23,6 +23,12 @@ ENGINE_FAILS = ['M7,7 C4,10 10,0 7,6 L5,0 C9,9 8,1 4,9 C7,2 9,8 9,9 Q8,10 1,3 Z'
 def poly(rng):
     k = rng.random()
     ox, oy = rng.randint(0, 6), rng.randint(0, 6)
+    if rng.random() < 0.08:
+        # an operand with no interior at all: a lone moveto, or a moveto and a single line (closed or not)
+        cmds = [['M', [F(ox), F(oy)]]]
+        if k < 0.7: cmds.append(['L', [F(ox + rng.randint(1, 6)), F(oy + rng.randint(0, 6))]])
+        if k < 0.3: cmds.append(['Z', []])
+        return cmds
     def sq(x, y, s, ccw=True):
         pts = [(x, y), (x + s, y), (x + s, y + s), (x, y + s)]
         if not ccw: pts.reverse()
